@@ -90,14 +90,37 @@ fn check_f64(bits: u64) {
 
 fn hex(v: &[u8]) -> String { v.iter().map(|b| format!("{:02x}", b)).collect() }
 
+// With SWEEP_TRACE=<file> every input is appended to the file before it is checked, so that after a crash of the
+// whole process (a defective constructor may return a value that cannot even be read or dropped) the last lines name it.
+static TRACE: std::sync::OnceLock<Option<std::sync::Mutex<std::fs::File>>> = std::sync::OnceLock::new();
+fn trace(line: impl FnOnce() -> String) {
+    let t = TRACE.get_or_init(|| std::env::var("SWEEP_TRACE").ok().and_then(|p| std::fs::OpenOptions::new().create(true).append(true).open(p).ok()).map(std::sync::Mutex::new));
+    if let Some(f) = t {
+        use std::io::Write;
+        let mut f = f.lock().unwrap();
+        let _ = writeln!(f, "{}", line());
+    }
+}
+
 fn check_utf8(v: &[u8]) {
     use lean_string::LeanString;
-    // compare bytes, not strs: a defective constructor may hand back text that is not UTF-8, and formatting that is UB
+    trace(|| format!("utf8 {}", if v.is_empty() { "-".to_string() } else { hex(v) }));
+    // compare bytes, not strs: a defective constructor may hand back text that is not UTF-8, and formatting that is UB;
+    // and compare acceptance before touching the value: one built from rejected input may not even be readable
     let r = std::panic::catch_unwind(|| {
-        let a = LeanString::from_utf8(v).map(|s| s.as_bytes().to_vec()).ok();
+        let a = LeanString::from_utf8(v);
         let b = String::from_utf8(v.to_vec()).map(|s| s.into_bytes()).ok();
-        if a != b {
-            report(format!("MISMATCH from_utf8 {} got={} want={}", hex(v), a.map(|x| hex(&x)).unwrap_or("Err".into()), b.map(|x| hex(&x)).unwrap_or("Err".into())));
+        match (a, b) {
+            (Ok(s), None) => {
+                core::mem::forget(s);
+                report(format!("MISMATCH from_utf8 {} got=Ok want=Err", hex(v)));
+            }
+            (a, b) => {
+                let a = a.map(|s| s.as_bytes().to_vec()).ok();
+                if a != b {
+                    report(format!("MISMATCH from_utf8 {} got={} want={}", hex(v), a.map(|x| hex(&x)).unwrap_or("Err".into()), b.map(|x| hex(&x)).unwrap_or("Err".into())));
+                }
+            }
         }
         if let Ok(text) = std::str::from_utf8(v) {
             // SAFETY: `v` was just validated
@@ -119,11 +142,21 @@ fn check_utf8(v: &[u8]) {
 
 fn check_utf16(v: &[u16]) {
     use lean_string::LeanString;
+    trace(|| format!("utf16 {}", if v.is_empty() { "-".to_string() } else { v.iter().map(|u| format!("{:04x}", u)).collect::<String>() }));
     let r = std::panic::catch_unwind(|| {
-        let a = LeanString::from_utf16(v).map(|s| s.as_bytes().to_vec()).ok();
+        let a = LeanString::from_utf16(v);
         let b = String::from_utf16(v).map(|s| s.into_bytes()).ok();
-        if a != b {
-            report(format!("MISMATCH from_utf16 {:04x?} got={} want={}", v, a.map(|x| hex(&x)).unwrap_or("Err".into()), b.map(|x| hex(&x)).unwrap_or("Err".into())));
+        match (a, b) {
+            (Ok(s), None) => {
+                core::mem::forget(s);
+                report(format!("MISMATCH from_utf16 {:04x?} got=Ok want=Err", v));
+            }
+            (a, b) => {
+                let a = a.map(|s| s.as_bytes().to_vec()).ok();
+                if a != b {
+                    report(format!("MISMATCH from_utf16 {:04x?} got={} want={}", v, a.map(|x| hex(&x)).unwrap_or("Err".into()), b.map(|x| hex(&x)).unwrap_or("Err".into())));
+                }
+            }
         }
         let al = LeanString::from_utf16_lossy(v);
         let bl = String::from_utf16_lossy(v);
@@ -367,6 +400,19 @@ fn main() {
             total += decode_under_faults();
             print!("{out}");
             checked = total;
+        }
+        "utf8one" => {
+            // one input (hex, or - for the empty one): the replay of a sweep mismatch or crash
+            let h = if a[2] == "-" { "" } else { a[2].as_str() };
+            let v: Vec<u8> = (0..h.len() / 2).map(|i| u8::from_str_radix(&h[2 * i..2 * i + 2], 16).expect("hex")).collect();
+            check_utf8(&v);
+            checked = 1;
+        }
+        "utf16one" => {
+            let h = if a[2] == "-" { "" } else { a[2].as_str() };
+            let v: Vec<u16> = (0..h.len() / 4).map(|i| u16::from_str_radix(&h[4 * i..4 * i + 4], 16).expect("hex")).collect();
+            check_utf16(&v);
+            checked = 1;
         }
         "utf16" => {
             let maxlen = a[2].parse::<usize>().expect("maxlen");
